@@ -87,6 +87,7 @@ REQUIRED = {
     'scale-affine': 10000, 'scale-clip': 10000, 'scale-dyadic-exact': 2000,
     'scale-shape': 10000, 'grid-flat': 2000, 'prep-opt': 2000,
     'prep-reject': 2000, 'reject-public': 4000, 'cdf': 2000,
+    'cdf-batch-forms': 1000,
 }
 REQUIRED_EVENTS = {'indices-roundtripped': {'quick': 20000000,
     'thorough': 400000000}, 'points-near-cell-boundary': 1000000,
@@ -1225,6 +1226,34 @@ def run_cdf(case, ctx, teneva):
                     f'gives {got[i]!r}'
                 break
     ctx.check('cdf', ok, lambda: f'cdf_getter(m={m}): {msg}')
+    # query batches of other sizes and dtypes (integers, float32, lists): the
+    # value of the step function depends on the query VALUE only
+    lo_, hi_ = int(np.clip(np.floor(xs[0]) - 2, -2**30, 2**30)), \
+        int(np.clip(np.ceil(xs[-1]) + 3, -2**30, 2**30))
+    K = int(rng.choice([5, 300, 513, 700, 3000]))
+    dt = [np.int64, np.int32, np.int16, np.float32, np.float64, 'list'][
+        int(rng.integers(6))]
+    if dt is np.int16:
+        lo_, hi_ = max(lo_, -30000), min(hi_, 30000)
+    if dt in (np.float32, np.float64, 'list'):
+        zq = rng.uniform(lo_, hi_, size=K)
+        zq = zq.astype(np.float32) if dt is np.float32 else zq
+        zarg = zq.tolist() if dt == 'list' else zq
+    else:
+        zq = rng.integers(lo_, max(hi_, lo_ + 1), size=K).astype(dt)
+        zarg = zq
+    zv = np.asarray(zq, dtype=float)
+    want = np.array([np.sum(x <= v) for v in zv]) / LD(m)
+    gq = cdf(zarg)
+    okq = isinstance(gq, np.ndarray) and gq.shape == (K,) and \
+        gq.dtype.kind == 'f' and gq.dtype.itemsize >= 8
+    if okq:
+        okq = bool(np.all(np.abs(gq.astype(LD) - want) <= 32 * EPS))
+    ctx.check('cdf-batch-forms', okq, lambda: f'cdf_getter(m={m}): batch of '
+        f'{K} queries as {dt if isinstance(dt, str) else dt.__name__}: '
+        f'returned {getattr(gq, "dtype", type(gq).__name__)} '
+        f'{np.asarray(gq)[:5].tolist()}, expected float64 '
+        f'{np.asarray(want, dtype=float)[:5].tolist()}')
     if len(ctx.samples) < 3:
         ctx.sample({'family': 'cdf', 'sample': x.tolist()[:12], 'm': m,
             'z': z[:8].tolist(), 'cdf': np.asarray(got)[:8].tolist()
